@@ -474,3 +474,153 @@ def r04i(ctx):
             else:
                 ctx.bad(cid, mod.loc(node), f"`{ast.unparse(node)}` selects the union of all consumers' requests from the input without restricting it to {base}.columns: a consumer that adds or relabels columns above this node (assign / merge / rename / add_prefix) makes the optimizer ask the input for labels it does not have (KeyError in an optimizable query)")
     ctx.floor("input projections built from determine_column_projection", n, 18)
+
+
+# ---------------------------------------------------------------------------------------------
+# R04j
+# ---------------------------------------------------------------------------------------------
+
+# parameters (other than the frame) whose VALUE names columns of the frame; confirmed by reading each class
+R04J_LABEL_PARAMS = {
+    "_slice": "columns selected from a groupby",
+    "groupby_slice": "columns selected from a groupby (rolling)",
+    "groupby_kwargs": "holds the groupby keys (rolling)",
+    "subset": "columns compared by dropna / drop_duplicates",
+    "_columns": "ordering columns of nlargest / nsmallest / nfirst / nlast",
+    "by": "sort keys",
+    "_other": "set_index key",
+    "other": "set_index key (presorted) / second frame",
+    "partitioning_index": "shuffle keys",
+    "left_on": "merge keys",
+    "right_on": "merge keys",
+    "left_by": "merge_asof group keys",
+    "right_by": "merge_asof group keys",
+    "dtypes": "astype mapping keyed by column",
+    "columns": "rename mapping / new labels",
+    "categories": "categorize mapping keyed by column",
+    "column": "assigned label",
+}
+
+
+@rule(
+    "R04j",
+    ["C04"],
+    """FORWARDED LABEL PARAMETERS FOLLOW THE PRUNED FRAME: a rule that prunes its input (`X.frame[cols]` from
+    determine_column_projection) and forwards the remaining operands unchanged (`*X.operands[1:]`) is inherited by / called for a
+    family of classes. Every parameter of such a class whose value NAMES COLUMNS of the frame (confirmed table: _slice,
+    groupby_slice, subset, by, _other, left_on, ...) must be read by the rule or its helpers - to keep those columns or to narrow
+    the parameter - otherwise the rebuilt node asks the pruned frame for a column that was just dropped:
+    df.groupby('g')[['x', 'y']].sum()['y'] raised KeyError.""",
+)
+def r04j(ctx):
+    import re as _re
+
+    from sa.rules.util import closure_functions
+
+    model = ctx.model
+    seen = set()
+    n = 0
+    for mod, cls, fn in model.all_functions():
+        if fn.name == "determine_column_projection" or "determine_column_projection(" not in ast.unparse(fn):
+            continue
+        fdefs = flow.Defs(fn)
+
+        def _forwards(x):
+            if "operands[" in ast.unparse(x.value):
+                return True
+            return isinstance(x.value, ast.Name) and any("operands[" in ast.unparse(v) for v in _def_chain(fdefs, x.value.id, x))
+
+        if not any(isinstance(x, ast.Starred) and _forwards(x) for x in ast.walk(fn)):
+            continue
+        if cls is not None:
+            heirs = [k for k in model.subclasses(cls) if k.provider(fn.name) is not None and k.provider(fn.name).cls is cls]
+        else:
+            heirs = []
+            for k in model.expr_classes():
+                pv = k.provider("_simplify_up")
+                if pv is None or pv.kind == "attr":
+                    continue
+                calls = [c for c in ast.walk(pv.node) if isinstance(c, ast.Call) and isinstance(c.func, ast.Name) and c.func.id == fn.name]
+                if not calls:
+                    continue
+                # a call made only under `self._projection_passthrough` is not reached by classes that switch the flag off
+                gated = all(any(pol and "._projection_passthrough" in ast.unparse(t) for t, pol in flow.facts(flow.point_of(pv.node, c))) for c in calls if flow.point_of(pv.node, c) is not None)
+                if gated and model.attr_kind(k, "_projection_passthrough")[0] == "attr" and model.flag(k, "_projection_passthrough", default=None) is False:
+                    continue
+                heirs.append(k)
+        fq = qual(cls, fn) if cls is not None else f"{mod.name.split('.', 1)[-1]}.{fn.name}"
+        for k in heirs:
+            try:
+                params = model.parameters(k)
+            except Exception:  # noqa: BLE001
+                continue
+            text = None
+            for p in params[1:]:
+                via = k.provider("_simplify_up").cls.qual if cls is None else ""
+                if p not in R04J_LABEL_PARAMS or (fq, p, via) in seen:
+                    continue
+                seen.add((fq, p, via))
+                if text is None:
+                    text = " ".join(ast.unparse(f) for _, _, f in closure_functions(model, mod, k, fn, depth=2))
+                    if cls is None:
+                        # the calling rule may read the parameter to hand it over as additional columns
+                        pv = k.provider("_simplify_up")
+                        text += " " + ast.unparse(pv.node)
+                n += 1
+                cid = f"{fq}:label-parameter:{p}" + (f":via:{via}" if via else "")
+                if _re.search(rf"\.{_re.escape(p)}\b|['\"]{_re.escape(p)}['\"]", text):
+                    ctx.ok(cid, mod.loc(fn), f"`{p}` ({R04J_LABEL_PARAMS[p]}) is read by the rule (first heir declaring it: {k.qual})")
+                else:
+                    ctx.bad(cid, mod.loc(fn), f"{fq} prunes the frame and forwards `{p}` ({R04J_LABEL_PARAMS[p]}; declared by {k.qual}) unchanged without ever reading it: after the projection the rebuilt {k.name} still names columns that the pruned frame no longer has (KeyError once optimized)")
+    ctx.floor("label parameters of pruning rules", n, 18)
+
+
+# ---------------------------------------------------------------------------------------------
+# R04k
+# ---------------------------------------------------------------------------------------------
+
+# operators whose every output column is computed from ALL input columns (which also label the output rows)
+R04K_ALL_COLUMN_OPERATORS = {
+    "_reductions.Cov": "pairwise covariance: rows of the result are the input columns",
+    "_reductions.Corr": "pairwise correlation",
+    "_groupby.Cov": "pairwise covariance per group",
+    "_groupby.Corr": "pairwise correlation per group",
+    "_rolling.RollingCov": "pairwise rolling covariance",
+    "_rolling.RollingAgg": "agg() functions may read any column",
+}
+
+
+@rule(
+    "R04k",
+    ["C04"],
+    """ALL-COLUMN OPERATORS DO NOT PRUNE THEIR INPUT: cov / corr (frame, groupby, rolling) and rolling agg compute every output column
+    from all input columns, and the input columns label the output ROWS. The `_simplify_up` such a class uses must not reach an
+    input-pruning helper (determine_column_projection / plain_column_projection / groupby_projection): df.cov()[['x']] returned one
+    row instead of one per column. Classes are the confirmed table plus every Expr class whose name contains Cov / Corr.""",
+)
+def r04k(ctx):
+    import re as _re
+
+    from sa.rules.util import closure_functions
+
+    model = ctx.model
+    n = 0
+    classes = {c.qual: c for c in model.expr_classes() if c.qual in R04K_ALL_COLUMN_OPERATORS or _re.search(r"Cov|Corr", c.name)}
+    missing = set(R04K_ALL_COLUMN_OPERATORS) - set(classes)
+    if missing:
+        raise AnalysisError(f"anchor vanished: all-column operators {sorted(missing)}")
+    for q, c in sorted(classes.items()):
+        pv = c.provider("_simplify_up")
+        n += 1
+        cid = f"{q}._simplify_up:all-columns"
+        if pv is None or pv.kind == "attr":
+            ctx.ok(cid, c.loc, "no rule")
+            continue
+        reach = [f.name for _, _, f in closure_functions(model, pv.cls.module, pv.cls, pv.node, depth=2)]
+        text = ast.unparse(pv.node)
+        hit = [h for h in ("determine_column_projection", "plain_column_projection", "groupby_projection") if h in reach or h + "(" in text]
+        if hit:
+            ctx.bad(cid, pv.cls.module.loc(pv.node), f"{q} ({R04K_ALL_COLUMN_OPERATORS.get(q, 'name says covariance / correlation')}) uses {pv.cls.qual}._simplify_up, which prunes the input through {hit[0]}: a column selection above it removes the other columns from the computation and with them rows of the result")
+        else:
+            ctx.ok(cid, c.loc, f"{pv.cls.qual}._simplify_up does not prune the input")
+    ctx.floor("all-column operators", n, 6)
